@@ -4,6 +4,7 @@ CONSTANTS
   MaxG = 2
   MaxH = 2
   MaxReq = 2
+  ReadOrder = "pend_store"
   Fix = "max"
 INVARIANTS TypeOK HeadMonotone SubjectiveCoversStore NoSpuriousErr
 PROPERTIES WrapMonotone LocalHeadMonotone Reached
